@@ -156,6 +156,10 @@ func (r *Run) Emit(op, obs string) {
 	r.obs.WriteByte('\n')
 	r.nOps++
 	r.curTrace = append(r.curTrace, op)
+	if digestOut != nil && lastFix != nil && lastFix.App != nil {
+		// C12: digest of every KV store after every op of every package harness
+		fmt.Fprintf(digestOut, "op=%d %s\n", r.nOps, lastFix.StoreDigest())
+	}
 	if r.AutoClass {
 		r.Class(op, obs != "err" && obs != "bad-op")
 	}
